@@ -80,11 +80,17 @@ def refutes(prop, u, r):
 
 def decide(prop, tier, seed, gdir, units, results, notes, wall):
     undec = []
+    u_timeouts = []
     obls = []
     unit_by_id = {u.id: u for u in units}
     for r in results:
         if r['status'] == 'cancelled':
             undec.append('%s: not run to the end (a violation had been found already)' % r['unit'])
+            continue
+        if r['status'] == 'timeout' and r.get('route') == 'U':
+            # route U is the every-capacity upgrade of obligations that route B decides at bounded capacity: a z3 query that
+            # does not finish leaves the bounded result standing (fewer every-capacity obligations in the evidence)
+            u_timeouts.append('%s: %s' % (r['unit'], r.get('error', 'timeout')))
             continue
         if r['status'] != 'done':
             undec.append('%s: %s %s' % (r['unit'], r['status'], r.get('error', '')[:400]))
@@ -138,13 +144,15 @@ def decide(prop, tier, seed, gdir, units, results, notes, wall):
                   traces_validated_against_impl=cos,
                   cosim_undefined_behaviour=[dict(container=u['container'], how=u['how']) for u in cosd.get('ub', [])],
                   samples=[dict(id=o['id'], status=o['status'], kind=o['kind'], expr=o.get('expr', o['desc'])[:200]) for o in (refuted[:5] + [x for x in obls if x['kind'] == 'postcondition'][:12])],
-                  undecided=undec),
+                  undecided=undec, route_u_not_finished=u_timeouts),
               assumptions=scan_assumptions() + ['bounded stand-in: capacity <= %d in these obligations' % max([u.maxcap for u in units if u.maxcap] or [0])] + u_assumptions(results),
               wall_s=round(wall, 1), violations=len(viol))
     os.makedirs(os.path.join(engine.VERIF, 'evidence'), exist_ok=True)
     json.dump(ev, open(os.path.join(engine.VERIF, 'evidence', prop + '.json'), 'w'), indent=1)
     for l in lines:
         print(l)
+    for t in u_timeouts:
+        print('NOTE: route U unit did not finish, the bounded (route B) result stands: ' + t)
     print('%s %s: %d obligations, %d discharged, %d refuted (%d known), %d units (%d cached), %.0fs' % (prop, tier, len(obls), len(obls) - len(refuted), len(refuted), len(refuted) - len(viol), len(units), ev['coverage']['units_cached'], wall))
     if viol:
         import replay_gen
